@@ -442,7 +442,6 @@ def IdnaLocalOK (cg : Nat → Bool) (o : Oracles) (hi : Str) : Prop :=
 /-- `URL.build` with the authority computation (`StrTotal.buildNetloc`) as a parameter -/
 def buildCore (e : Env) (a : BuildArgs) (nl : BuildArgs → R Str) : R Url := do
   let portTruthy := match a.portKind, a.port with
-    | 0, some p => p ≠ 0
     | 0, none => false
     | _, _ => true
   if !a.authority.isEmpty && (a.user.any (!·.isEmpty) || a.password.any (!·.isEmpty) || !a.host.isEmpty || portTruthy) then
